@@ -1,6 +1,8 @@
 (* C17 - The global defender detects only past its thresholds, with the stated odds.
    Statements only; proofs are in Proofs/DefenderFacts.v. *)
-From NSG Require Import Base.Prelude Model.Defender Proofs.DefenderFacts.
+From Coq Require Import ZArith NArith List Bool.
+From NSG Require Import Base.Prelude Model.Defender Proofs.DefenderFacts Model.Coord Model.CoordExec Proofs.CoordAgentStep Proofs.CoordDetect Gen.DefenderTables.
+Import ListNotations.
 
 (* The decision, for ALL tables, window sizes, histories, actions and draws:
    detection <-> episode (with this action) at least one window long, monitored type,
@@ -43,7 +45,111 @@ Example C17_nonvacuous :
   decide T 5 (tl h) (ScanNetwork, 7%N) (0%Z, 1%positive) = Some false.
 Proof. vm_compute. repeat split; reflexivity. Qed.
 
+(* ---- the defender inside the game (Model/Coord.v, for every reachable state of the coordinator, any number of
+        agents, any interleaving) ----
+   The coordinator's detection function is the defender's decision on the tables, with window tw and draw roll
+   (the executable instance x_detect of the correspondence check is this function with tw = 5). *)
+Definition defender_detect (T : tables) (tw : nat) (roll : rat) (hist : list act) (a : act) : bool :=
+  match decide T tw hist a roll with Some true => true | _ => false end.
+
+(* "a detected agent's episode ends with reason Fail", and ONLY a detected agent's: in one label the status of an
+   agent that is not a Defender becomes Fail only in its own game handler, by a counted step in which the goal was not
+   reached and the defender's condition of C17_iff holds for the new action and EXACTLY the actions recorded in the
+   agent's trajectory (the episode's history and nothing else); that very step ends the episode, with the step reward
+   and the end bonus still to be paid. *)
+Theorem C17_game_fail_only_by_detection :
+  forall (V W : Type) (wstep : W -> V -> act -> W * V) (wreset : W -> W) (winit : W -> role -> W * V)
+         (goal : role -> V -> bool) (cfg : config) (T : tables) (tw : nat) (roll : rat)
+         (w : W) (ls0 : list (@label act)) (s s' : @state V W act) (l : @label act) (c : addr) (a a' : @agent V act),
+    wf_tables T = true ->
+    execs wstep wreset winit goal (defender_detect T tw roll) cfg (init_state w) ls0 = Some s ->
+    exec wstep wreset winit goal (defender_detect T tw roll) cfg s l = Some s' ->
+    alookup c (agents s) = Some a -> alookup c (agents s') = Some a' ->
+    a_role a <> RDefender -> a_status a <> SFail -> a_status a' = SFail ->
+    exists id action v',
+      l = LRun (THandler id) /\ goal (a_role a) v' = false /\
+      (tw <= length (t_actions (a_traj a)) + 1 /\ monitored T (fst action) = true /\
+       trigger T tw (t_actions (a_traj a)) action /\ draw_below T (fst action) roll) /\
+      a_ended a = false /\ a_ended a' = true /\ a_steps a' = S (a_steps a) /\ a_view a' = v' /\
+      a_reward a' = r_step cfg /\ a_rewarded a' = false.
+Proof.
+  intros V W wstep wreset winit goal cfg T tw roll w ls0 s s' l c a a' HT H0 He Ha Ha' Hrole Hn Hf.
+  destruct (fail_origin_reachable wstep wreset winit goal (defender_detect T tw roll) cfg w ls0 s s' l c a a' H0 He Ha Ha' Hn Hf)
+    as [[id [action [v' [Hl [Hg [Hd R]]]]]] | [_ [Hr _]]]; [|contradiction].
+  exists id, action, v'. split; [exact Hl|]. split; [exact Hg|]. split; [|exact R].
+  apply (decide_iff T tw (t_actions (a_traj a)) action roll HT).
+  unfold defender_detect in Hd. destruct (decide T tw (t_actions (a_traj a)) action roll) as [[|]|]; [reflexivity | discriminate | discriminate].
+Qed.
+
+(* every counted step applies the status rule with the defender's decision on the trajectory's actions: goal first,
+   then detection, then the step limit; a terminal status ends the episode in that step *)
+Theorem C17_game_step_rule :
+  forall (V W : Type) (wstep : W -> V -> act -> W * V) (wreset : W -> W) (winit : W -> role -> W * V)
+         (goal : role -> V -> bool) (cfg : config) (T : tables) (tw : nat) (roll : rat)
+         (w : W) (ls0 : list (@label act)) (s s' : @state V W act) (l : @label act) (c : addr) (a a' : @agent V act),
+    execs wstep wreset winit goal (defender_detect T tw roll) cfg (init_state w) ls0 = Some s ->
+    exec wstep wreset winit goal (defender_detect T tw roll) cfg s l = Some s' ->
+    alookup c (agents s) = Some a -> alookup c (agents s') = Some a' ->
+    l <> LRun TReset -> a_steps a' = S (a_steps a) ->
+    exists action,
+      a_status a' =
+        (if goal (a_role a) (a_view a') then SSuccess
+         else if defender_detect T tw roll (t_actions (a_traj a)) action then SFail
+         else if is_timeout cfg (bump a) then STimeout else a_status a) /\
+      (terminal (a_status a') = true -> a_ended a' = true) /\ a_ended a = false.
+Proof.
+  intros V W wstep wreset winit goal cfg T tw roll w ls0 s s' l c a a' H0 He Ha Ha' Hl Hs.
+  destruct (step_status_reachable wstep wreset winit goal (defender_detect T tw roll) cfg w ls0 s s' l c a a' H0 He Ha Ha' Hl Hs)
+    as [action [Hst [Ht [Hend _]]]].
+  exists action. split; [exact Hst|]. split; [exact Ht | exact Hend].
+Qed.
+
+(* "... and the fail reward": the reward task pays an ended, not yet rewarded attacker whose status is Fail the fail
+   reward on top of what it holds, marks it rewarded (C05: at most once per episode) and leaves the reason alone *)
+Theorem C17_game_fail_reward :
+  forall (V : Type) (cfg : config) (succ : bool) (a : @agent V act),
+    a_role a = RAttacker -> a_status a = SFail -> a_ended a = true -> a_rewarded a = false ->
+    a_reward (reward_agent cfg succ a) = (a_reward a + r_fail cfg)%Z /\ a_rewarded (reward_agent cfg succ a) = true /\
+    a_status (reward_agent cfg succ a) = SFail.
+Proof. intros V cfg succ a. exact (reward_agent_fail cfg succ a). Qed.
+
+(* non-vacuity: with the tables generated from global_defender.py and draw 0, one attacker repeating one scan is
+   detected at its fifth action (window 5): status Fail, episode ended, step reward held, and after the reward task
+   the fail reward on top; the first four actions do not end the episode *)
+Example C17_game_nonvacuous :
+  let cfg := {| required := 1; max_steps := fun _ => None; r_step := (-1)%Z; r_succ := 100%Z; r_fail := (-10)%Z;
+                allowed := fun _ => true; save_traj := false |} in
+  let ex := execs x_wstep x_wreset x_winit (x_goal []) (defender_detect gen_tables 5 (0%Z, 1%positive)) cfg in
+  let g := MGame (ScanNetwork, 3%N) true in
+  let join := [LConnect 1%N; LArrive 1%N (CMsg (MJoin (Some (7%N, Some RAttacker)))); LRun (TConn 1%N); LRun TDispatch; LRun (THandler 0); LRun (TConn 1%N)] in
+  let play k := [LArrive 1%N (CMsg g); LRun (TConn 1%N); LRun TDispatch; LRun (THandler k); LRun (TConn 1%N)] in
+  let four := join ++ play 1 ++ play 2 ++ play 3 ++ play 4 in
+  let fifth := [LArrive 1%N (CMsg g); LRun (TConn 1%N); LRun TDispatch; LRun (THandler 5)] in
+  wf_tables gen_tables = true /\
+  match ex (init_state [5%N; 6%N; 8%N; 9%N; 10%N; 11%N; 12%N]) four with
+  | Some s =>
+      match alookup 1%N (agents s), ex s fifth with
+      | Some a, Some s' =>
+          a_ended a = false /\ a_status a = SPlayingTO /\ length (t_actions (a_traj a)) = 4 /\
+          match alookup 1%N (agents s'), ex s' [LRun TRewards] with
+          | Some a', Some s'' =>
+              a_status a' = SFail /\ a_ended a' = true /\ a_reward a' = (-1)%Z /\ a_rewarded a' = false /\
+              match alookup 1%N (agents s'') with
+              | Some a'' => a_status a'' = SFail /\ a_reward a'' = (-11)%Z /\ a_rewarded a'' = true
+              | None => False
+              end
+          | _, _ => False
+          end
+      | _, _ => False
+      end
+  | None => False
+  end.
+Proof. vm_compute. repeat split; reflexivity. Qed.
+
 Print Assumptions C17_iff.
 Print Assumptions C17_total.
 Print Assumptions C17_run.
 Print Assumptions C17_draw.
+Print Assumptions C17_game_fail_only_by_detection.
+Print Assumptions C17_game_step_rule.
+Print Assumptions C17_game_fail_reward.
